@@ -760,3 +760,28 @@ def READ_OPTS_PLAIN(o: dict) -> bool:
             and not o.get("return_named_type") and not o.get("return_named_type_override")
             and isinstance(o.get("handle_unicode_errors", "strict"), str))
 
+
+
+# ------------------------------------------------------------------ data generation (C20), leaf part
+@spec
+def LEAFY(s: object, ns: dict) -> bool:
+    """schemas built from primitives, fixed, enum, non-empty unions of such, and references to such
+    (no arrays, maps or records): the part of gen_data that is under contract"""
+    t = TYPE(s)
+    if t == "null" or t == "boolean" or t == "int" or t == "long" or t == "float" \
+            or t == "double" or t == "bytes" or t == "string":
+        return True
+    if isinstance(s, list):
+        return len(s) >= 1 and LEAFY_ALL(s, ns, 0)
+    if isinstance(s, dict):
+        return t == "fixed" or t == "enum"
+    if isinstance(s, str) and s in ns:
+        return LEAFY(ns[s], ns)
+    return False
+
+
+@spec
+def LEAFY_ALL(u: list, ns: dict, k: int) -> bool:
+    if k >= len(u):
+        return True
+    return LEAFY(u[k], ns) and LEAFY_ALL(u, ns, k + 1)
